@@ -76,7 +76,12 @@ def case_strategy(draw):
                 if draw(st.integers(0, 2)) == 0 else st.just([]))
     return {"terminals": terms, "devices": [],
             "link": {"in": [ti, "rin", fi], "out": [to, "rout", fo]},
-            "cycles": cycles, "lose": sorted(lose)}
+            "cycles": cycles, "lose": sorted(lose),
+            # this terminal refuses to go to SAFE-OPERATIONAL (error flag):
+            # the group must fail instead of driving the others on
+            # (one of the terminals the device uses)
+            "refuse": draw(st.none() | st.none() | st.none()
+                           | st.sampled_from([ti, to]))}
 
 
 def strategy(tier):
@@ -143,6 +148,9 @@ def run_case(case):
 
         rig = cyclic.Rig(loop, case, "slow", latency=latency, fault=fault,
                          on_frame=on_frame)
+        if case.get("refuse") is not None:
+            rig.models[case["refuse"]].al_refuse = \
+                lambda frm, to: 0x1d if to == 4 else None
         dev = Recorder()
         dev.inp = getattr(rig.terms[ti], iname)
         dev.out = getattr(rig.terms[to], oname)
@@ -185,6 +193,22 @@ def run_case(case):
     if "rig" not in hist:
         return fail(f"the group did not start: {hist.get('end')}")
     rig, dev, sg = hist["rig"], hist["dev"], hist["sg"]
+    if case.get("refuse") is not None:
+        classes.append("refusing-terminal")
+        asked_op = [t.name for t in sg.terminals
+                    if 8 in rig.state_writes(t)]
+        if not hist["end"].startswith("EtherCatError"):
+            return fail(f"terminal {case['refuse']} refused SAFE-OPERATIONAL "
+                        f"with an error, the group task ended as "
+                        f"'{hist['end']}' after {len(dev.seen)} updates "
+                        f"instead of failing with EtherCatError")
+        if asked_op:
+            return fail(f"terminal {case['refuse']} refused SAFE-OPERATIONAL"
+                        f", but {asked_op} were asked to go OPERATIONAL")
+        return dict(ok=True, nontrivial=len(case["terminals"]) >= 2,
+                    key=repr(("refuse", case["refuse"],
+                              len(case["terminals"]))),
+                    classes=classes, summary={"end": hist["end"]})
     if hist["end"] != "cancelled":
         return fail(f"the group task ended as '{hist['end']}' after "
                     f"{len(dev.seen)} updates")
